@@ -7,6 +7,7 @@ from ..gen import J, JI
 from . import lincommon as lc
 
 PROP = "C13"
+HOSTILE = ('scale', 'mean')
 MONITORS = ("WF", "DENS")
 ANCHORS = [("pdf.py", "GaussianPDF.entropy"), ("pdf.py", "GaussianPDF.kl_divergence"),
            ("conditional.py", "ConditionalGaussianPDF.conditional_entropy"),
@@ -173,8 +174,15 @@ def run_cond(cell, rec, seed):
             e = lc.call(rec, "integrate_log_conditional",
                         lambda: c.integrate_log_conditional(pyx), info)
             if e is not None:
+                # natural scale of E[(y-Mx-b)' L (y-Mx-b)]: absolute companion of the residual law
+                T = np.concatenate([np.broadcast_to(np.eye(Dy), (R, Dy, Dy)), -tj.M], axis=2)
+                absm = np.einsum("rab,rb->ra", np.abs(T), np.abs(m_yx)) + np.abs(tj.b)
+                absC = np.einsum("rab,rbc,rdc->rad", np.abs(T), np.abs(S_yx), np.abs(T))
+                Lc = np.abs(orc.inv(tj.Sigma_c))
+                ns_e = ns + 0.5 * (np.einsum("rab,rab->r", Lc, absC) + np.einsum(
+                    "ra,rab,rb->r", absm, Lc, absm))
                 rec.close("conditional entropy = -E[ln p(y|x)]", -np.asarray(e), Hc_ref,
-                          ns=ns * 4, detail=info, mech=f"conditional-entropy-vs-expectation:{ck}")
+                          ns=ns_e, detail=info, mech=f"conditional-entropy-vs-expectation:{ck}")
         if rep == 0 and R > 1:
             rec.sample({"case": info, "H(Y|X)": Hc_ref, "I": I_ref})
 
